@@ -57,16 +57,10 @@ class Env:
         self._refused = False
         self.capturing = False  # atexit registrations are collected instead of registered
         self.exit_funcs = []
-        self.mainlock = None  # file name of the lock of the library under test (other lock files are named in the info)
-        self.lock_tag = ""  # "@inner": acquisitions of a session nested inside another one / of a constructor in between
+        self.lock_tag = ""  # set by the body: ":lib2" = a session on another library, "@inner" = acquisitions nested inside a session / of a constructor in between
 
     def lock_info(self, lockfile, mode):
-        name = getattr(lockfile, "name", "") or ""
-        name = os.path.basename(os.fsdecode(name) if isinstance(name, (bytes, str)) else "")
-        t = (mode or "") + self.lock_tag
-        if self.mainlock and name and name != self.mainlock:
-            t += ":" + name
-        return t or None
+        return ((mode or "") + self.lock_tag) or None
 
     # -- scheduling point -------------------------------------------------------------------
     def point(self, label, info=None):
